@@ -560,4 +560,64 @@ theorem fnc_insert_text (cs : CharSpec) (u f v : List Char) (hok : fncFillerOK c
           (by simpa [fncNoF] using hx') (fun _ => Or.inr hx) h
         simpa using this
 
+/-! ### the printed document -/
+
+theorem fnc_docSpec_append (A B : List (DocItem × List Tok)) : docSpec (A ++ B) = docSpec A ++ docSpec B := by
+  induction A with
+  | nil => rfl
+  | cons d A ih =>
+    simp only [docSpec, List.cons_append, List.map_cons, docToks, List.append_assoc] at ih ⊢
+    rw [ih]
+
+theorem fnc_render_inText (pre : List Tok) (D1 D2 : List (DocItem × List Tok)) (sep : List Tok) (S1 S2 : List SegX)
+    (l1 F l2 : List Tok) :
+    render (pre ++ docSpec (D1 ++ (DocItem.step (S1 ++ SegX.text (l1 ++ F ++ l2) :: S2), sep) :: D2)) =
+      (render pre ++ render (docSpec D1) ++ render (S1.flatMap SegX.spell) ++ render l1) ++ render F ++
+      (render l2 ++ render (S2.flatMap SegX.spell) ++ render sep ++ render (docSpec D2)) := by
+  have e : docSpec ((DocItem.step (S1 ++ SegX.text (l1 ++ F ++ l2) :: S2), sep) :: D2) =
+      (S1.flatMap SegX.spell ++ (l1 ++ F ++ l2) ++ S2.flatMap SegX.spell) ++ sep ++ docSpec D2 := by
+    simp [docSpec, docToks, DocItem.spell, SegX.spell, List.flatMap_append]
+  rw [fnc_docSpec_append, e]
+  simp only [render_append, List.append_assoc]
+
+theorem fnc_render_newText (pre : List Tok) (D1 D2 : List (DocItem × List Tok)) (sep : List Tok) (S1 S2 : List SegX)
+    (F : List Tok) :
+    render (pre ++ docSpec (D1 ++ (DocItem.step (S1 ++ SegX.text F :: S2), sep) :: D2)) =
+      (render pre ++ render (docSpec D1) ++ render (S1.flatMap SegX.spell)) ++ render F ++
+      (render (S2.flatMap SegX.spell) ++ render sep ++ render (docSpec D2)) := by
+  have e : docSpec ((DocItem.step (S1 ++ SegX.text F :: S2), sep) :: D2) =
+      (S1.flatMap SegX.spell ++ F ++ S2.flatMap SegX.spell) ++ sep ++ docSpec D2 := by
+    simp [docSpec, docToks, DocItem.spell, SegX.spell, List.flatMap_append]
+  rw [fnc_docSpec_append, e]
+  simp only [render_append, List.append_assoc]
+
+theorem fnc_render_nil : render [] = [] := rfl
+
+/-- filler in a text run of a step: the printed document stays without front matter -/
+theorem fnc_doc_inText (cs : CharSpec) (pre : List Tok) (D1 D2 : List (DocItem × List Tok)) (sep : List Tok)
+    (S1 S2 : List SegX) (l1 F l2 : List Tok) (hok : fncFillerOK cs (render F) = true)
+    (h : parseFrontmatter cs
+      (render (pre ++ docSpec (D1 ++ (DocItem.step (S1 ++ SegX.text (l1 ++ l2) :: S2), sep) :: D2))) = none) :
+    parseFrontmatter cs
+      (render (pre ++ docSpec (D1 ++ (DocItem.step (S1 ++ SegX.text (l1 ++ F ++ l2) :: S2), sep) :: D2))) = none := by
+  rw [fnc_render_inText]
+  apply fnc_insert_text cs _ _ _ hok
+  have := fnc_render_inText pre D1 D2 sep S1 S2 l1 [] l2
+  simp only [List.append_nil, fnc_render_nil] at this
+  rw [← this]; exact h
+
+/-- filler as a text run of its own -/
+theorem fnc_doc_newText (cs : CharSpec) (pre : List Tok) (D1 D2 : List (DocItem × List Tok)) (sep : List Tok)
+    (S1 S2 : List SegX) (F : List Tok) (hok : fncFillerOK cs (render F) = true)
+    (h : parseFrontmatter cs (render (pre ++ docSpec (D1 ++ (DocItem.step (S1 ++ S2), sep) :: D2))) = none) :
+    parseFrontmatter cs
+      (render (pre ++ docSpec (D1 ++ (DocItem.step (S1 ++ SegX.text F :: S2), sep) :: D2))) = none := by
+  rw [fnc_render_newText]
+  apply fnc_insert_text cs _ _ _ hok
+  have e : docSpec ((DocItem.step (S1 ++ S2), sep) :: D2) =
+      (S1.flatMap SegX.spell ++ S2.flatMap SegX.spell) ++ sep ++ docSpec D2 := by
+    simp [docSpec, docToks, DocItem.spell, List.flatMap_append]
+  rw [fnc_docSpec_append, e] at h
+  simpa only [render_append, List.append_assoc] using h
+
 end Cook
